@@ -265,6 +265,18 @@ def _validate_put_ast(self: fst.FST, put_ast: AST, idx: int | None, field: str, 
                               f'{self.a.__class__.__name__}.{field}') +
                              f', got {put_ast.__class__.__name__}')
 
+    if (self_cls := self.a.__class__) is arguments:  # Lambda arguments cannot have annotations
+        if (put_ast.__class__ is arg
+            and put_ast.annotation
+            and (parent := self.parent)
+            and parent.a.__class__ is Lambda
+        ):
+            raise NodeError('cannot put arg with annotation to Lambda arguments')
+
+    elif self_cls is arg and field == 'annotation':
+        if (parent := self.parent) and (parent := parent.parent) and parent.a.__class__ is Lambda:
+            raise NodeError('cannot put annotation to Lambda arg')
+
 
 def _validate_pattern_attr(self: fst.FST) -> Name:
     while True:
